@@ -535,7 +535,33 @@ def r11(ctx):
     ctx.floor(R, 2)
 
 
+def r12(ctx):
+    R = "C13-R12"
+    ctx.rule(R, "closed sockets are reaped on every egress pass, whether or not the pass moved a packet: Kernel::egress reaches tcp::reap_closed on "
+                "every path to its return (a socket often reaches Closed from a segment that needs no reply - the final ACK in LAST_ACK, a RST while "
+                "lingering - and its host may stay quiet afterwards); and the backlog admission in accept_syn counts the half-open children of the "
+                "*listener's* address (count_children is handed accept_syn's `local`, not the connector's address)")
+    eg = ctx.body(R, "turmoil_net::kernel::Kernel::egress")
+    if eg:
+        rc = [bb for bb, t in eg.calls("turmoil_net::kernel::tcp::reap_closed")]
+        ok = bool(rc) and not always_passes(eg, rc)
+        ctx.inst(R, "egress:reaps-on-every-pass", ok, eg.site(rc[0]) if rc else eg.span, "reap_closed runs on every egress pass" if ok else
+                 "Kernel::egress has a path to its return that does not call tcp::reap_closed (e.g. the call sits in the body of the drain loop, which only runs when there is "
+                 "something to send): a dropped socket that reaches Closed on an idle host keeps its entry, port binding and 4-tuple for ever - a later bind gets AddrInUse")
+    ac = ctx.body(R, "turmoil_net::kernel::tcp::accept_syn")
+    if ac:
+        for bb, t in ac.calls("turmoil_net::kernel::tcp::count_children"):
+            at = Slicer(ctx.w).atoms(ac, t["args"][2])
+            names = {a.split(":")[2].split("@")[0] for a in at if a.startswith("arg:") and a.endswith("@" + ac.id)}
+            ok = names == {"local"}
+            ctx.inst(R, "accept_syn:backlog-counts-listener-children", ok, t["s"], "in-flight children are counted at the listener's address" if ok else
+                     f"accept_syn counts half-open children at {sorted(names)} instead of at the listener's own address: the count is always 0, so a burst of SYNs that arrives before "
+                     "earlier handshakes complete is admitted past the backlog")
+    ctx.floor(R, 2)
+
+
 def run(ctx):
+    r12(ctx)
     r11(ctx)
     from . import C06
     C06.r7(ctx)   # a close actually sends its FIN: fin_seq is the byte after send_buf, whatever is in flight (else FIN_WAIT1 for ever, entries leak)
